@@ -99,4 +99,40 @@ def fieldpts(eq, mesh, spec):
     return {k: np.array(v, dtype=float) for k, v in out.items()}
 
 
-EXTRACTORS = {"fieldpts": fieldpts, "beta": beta, "bpsign": bpsign, "eqinfo": eqinfo, "regions": regions, "meshmeta": meshmeta}
+def profiles(eq, mesh, spec):
+    """expected pressure at the cell centres from the input profile: reflected about the leg's own separatrix in leg regions"""
+    out = {"regions": {}}
+    if getattr(eq, "p_spl", None) is None:
+        return out
+    sign = float(np.sign(eq.psi_sep[0] - eq.psi_axis))
+    exp = np.full((mesh.nx, mesh.ny), np.nan)
+    for rid, r in mesh.regions.items():
+        er = r.equilibriumRegion
+        name = er.name
+        kind = er.kind
+        leg_psi = float(er.psival) if er.psival is not None else None
+        psi = r.psixy.centre
+        if "wall" in kind:
+            pe = eq.pressure(leg_psi + sign * np.abs(psi - leg_psi))
+        else:
+            pe = eq.pressure(psi)
+        exp[mesh.region_indices[rid]] = pe
+        out["regions"][rid] = {"name": name, "kind": kind, "leg_psi": leg_psi}
+    out["expected_pressure"] = exp
+    out["sign"] = sign
+    out["psi_sep"] = [float(x) for x in eq.psi_sep]
+    out["psi_axis"] = float(eq.psi_axis)
+    out["o_point"] = (float(eq.o_point.R), float(eq.o_point.Z))
+    out["x_point"] = (float(eq.x_point.R), float(eq.x_point.Z))
+    out["fpol_axis"] = float(eq.fpol(eq.psi_axis))
+    h = 1e-6
+    out["grad_at_o"] = [float((eq.psi(eq.o_point.R + h, eq.o_point.Z) - eq.psi(eq.o_point.R - h, eq.o_point.Z)) / (2 * h)),
+                        float((eq.psi(eq.o_point.R, eq.o_point.Z + h) - eq.psi(eq.o_point.R, eq.o_point.Z - h)) / (2 * h))]
+    out["grad_at_x"] = [float((eq.psi(eq.x_point.R + h, eq.x_point.Z) - eq.psi(eq.x_point.R - h, eq.x_point.Z)) / (2 * h)),
+                        float((eq.psi(eq.x_point.R, eq.x_point.Z + h) - eq.psi(eq.x_point.R, eq.x_point.Z - h)) / (2 * h))]
+    out["psi_at_o"] = float(eq.psi(eq.o_point.R, eq.o_point.Z))
+    out["psi_at_x"] = float(eq.psi(eq.x_point.R, eq.x_point.Z))
+    return out
+
+
+EXTRACTORS = {"profiles": profiles, "fieldpts": fieldpts, "beta": beta, "bpsign": bpsign, "eqinfo": eqinfo, "regions": regions, "meshmeta": meshmeta}
